@@ -484,7 +484,7 @@ def run(run):
     if quick:
         jobs += [["-mode", "planner-exh", "-pool", "4", "-shard", str(i), "-shards", "2"] for i in range(2)]
         jobs += [["-mode", "planner-exh", "-pool", "5", "-shard", str(i), "-shards", "64"] for i in range(4)]
-        jobs += [["-mode", "planner-rand", "-n", "2500", "-seed", str(run.seed * 1000 + i)] for i in range(4)]
+        jobs += [["-mode", "planner-rand", "-n", str(run.scaled(2500)), "-seed", str(run.seed * 1000 + i)] for i in range(4)]
     else:
         jobs += [["-mode", "planner-exh", "-pool", "5", "-shard", str(i), "-shards", "32"] for i in range(32)]
         jobs += [["-mode", "planner-rand", "-n", "20000", "-seed", str(run.seed * 1000 + i)] for i in range(16)]
@@ -513,7 +513,7 @@ def run(run):
     rcorpus = os.path.join(C.VERIF, "corpus", "C16", "runner.txt")
     if os.path.exists(rcorpus):
         runner_leg(run, ["-file", rcorpus, "-jobs", "4"], rstats, samples, vm_stride=1)
-    n = 1600 if quick else 24000
+    n = run.scaled(1600) if quick else 24000       # anchor drift: escalated budget
     chunk = 800 if quick else 3000
     done = 0
     while done < n:
